@@ -177,8 +177,64 @@ fn leb_s(mut v: i64) -> Vec<u8> {
     }
 }
 
+/// values of future types (an opcode below -24 in the table; a value is: payload length, number of references, the
+/// payload): every combination of declared length, length of the references number (padded LEB128) and payload
+/// actually present around the end of the input, alone, before another argument and inside a record
+fn future_values(ctx: &mut Ctx) {
+    let none = TypeEnv::new();
+    let pad = |n: u64, extra: usize| -> Vec<u8> {
+        // LEB128 of n with `extra` padding groups
+        let mut v = leb(n);
+        if extra > 0 {
+            let last = v.len() - 1;
+            v[last] |= 0x80;
+            for _ in 0..extra - 1 {
+                v.push(0x80);
+            }
+            v.push(0x00);
+        }
+        v
+    };
+    for opcode in [0x67u8, 0x5f, 0x40] {
+        for declared in 0u64..6 {
+            for refs_extra in 0usize..4 {
+                for present in 0usize..8 {
+                    for shape in 0..3 {
+                        // table: 0 = future; 1 = record { 0 : future; 1 : nat8 }
+                        let mut m = b"DIDL\x02".to_vec();
+                        m.extend_from_slice(&[opcode, 0x00]);
+                        m.extend_from_slice(&[0x6c, 0x02, 0x00, 0x00, 0x01, 0x7b]);
+                        let mut val = pad(declared, 0);
+                        val.extend(pad(0, refs_extra));
+                        val.extend(std::iter::repeat(0xabu8).take(present));
+                        match shape {
+                            0 => {
+                                m.extend_from_slice(&[0x01, 0x00]);
+                                m.extend(&val);
+                            }
+                            1 => {
+                                m.extend_from_slice(&[0x02, 0x00, 0x71]);
+                                m.extend(&val);
+                            }
+                            _ => {
+                                m.extend_from_slice(&[0x01, 0x01]);
+                                m.extend(&val);
+                            }
+                        }
+                        ctx.emit(&format!("wire.decodeSelf\t{}", sexp::hx(&m)), true);
+                        emit_de(ctx, &m, &none, &[], Some(10_000), Some(10_000));
+                        emit_de(ctx, &m, &none, &[TypeInner::Reserved.into()], None, None);
+                        emit_de(ctx, &m, &none, &[TypeInner::Reserved.into(), TypeInner::Text.into()], Some(10_000), None);
+                    }
+                }
+            }
+        }
+    }
+}
+
 pub fn run(ctx: &mut Ctx) {
     length_bombs(ctx);
+    future_values(ctx);
     deep(ctx);
     deep_recursive(ctx);
     let n = if ctx.thorough { 60_000 } else { 2_000 };
